@@ -50,7 +50,11 @@ def main(argv=None):
             rep.error("rule=internal reason=%s: %s (%s)" % (type(e).__name__, e, tb[-3].strip() if len(tb) >= 3 else ""))
         buf = io.StringIO()
         with contextlib.redirect_stdout(buf):
-            rc = rep.finish()
+            try:
+                rc = rep.finish()
+            except Exception as e:       # a defect of the reporting step itself is an undecided run, never a pass
+                rc = 2
+                print("ANALYSIS-ERROR property=%s rule=internal reason=report: %s: %s" % (prop, type(e).__name__, e))
         out = buf.getvalue()
         viol = [l for l in out.splitlines() if l.startswith("  ") and "rule=" in l]
         errs = [l for l in out.splitlines() if l.startswith("ANALYSIS-ERROR")]
